@@ -1622,13 +1622,8 @@ func (m *c42Machine) actReorg() {
 		var txs []*types.Transaction
 		var included [c42NAcct]int
 		var touched [c42NAcct]bool
-		if bi == 1 {
-			for i := range per {
-				if len(per[i]) > 0 {
-					touched[i] = true // their state may differ on the new branch
-				}
-			}
-		}
+		// a block changes the state only of accounts that have a transaction in it (then every account whose
+		// state differs between two heads is a transactor of the Reset between them, which is what the pool rechecks)
 		if bi == lateAt {
 			for i := range per {
 				sort.Slice(per[i], func(a, b int) bool { return per[i][a].Nonce() < per[i][b].Nonce() })
@@ -1646,7 +1641,6 @@ func (m *c42Machine) actReorg() {
 				}
 			}
 		}
-		// balances only for accounts that transact in this block or were transactors of the old branch
 		st := m.nextState(cur.st, included, touched, fmt.Sprintf("reorg%d", bi))
 		bf, ex := m.drawFees(fmt.Sprintf("reorg%d", bi))
 		cur = m.chain.newBlock(cur, txs, bf, ex, st)
@@ -1840,8 +1834,10 @@ func (m *c42Machine) abruptReopen(img *crashfs.Snapshot, note string, pre, post 
 		}
 	}
 	// the retention set of the model must not claim entries the image cannot have
+	// (txs in flight of the interrupted operation are exempt from the retention check from now on: the
+	// image may hold them under a stale block — limbo.update is delete-then-put — or not at all)
 	for h := range m.limboSet {
-		if _, ok := m.pool.limbo.index[h]; !ok && inflight[h] {
+		if inflight[h] {
 			delete(m.limboSet, h)
 		}
 	}
